@@ -233,6 +233,11 @@ void BinaryFileReader::read_faces(Decoder &reader, const TopoChunkHeader &header
     for (uint64_t i = 0; i < header.span.count; ++i)
     {
         uint32_t valence = header.valence == 0 ? _valences[i] : header.valence;
+        if (valence == 0) {
+            state_ = ReadState::ErrorEmptyList;
+            error_msg_ = "TOPO chunk: face without halfedges";
+            return;
+        }
         std::vector<HEH> halfedges;
         halfedges.reserve(valence);
         auto success = read_n_ints(reader,
@@ -286,6 +291,11 @@ void BinaryFileReader::read_cells(Decoder &reader, const TopoChunkHeader &header
     for (uint64_t i = 0; i < header.span.count; ++i)
     {
         uint32_t valence = header.valence == 0 ? _valences[i] : header.valence;
+        if (valence == 0) {
+            state_ = ReadState::ErrorEmptyList;
+            error_msg_ = "TOPO chunk: cell without halffaces";
+            return;
+        }
         std::vector<HFH> halffaces;
         halffaces.reserve(valence);
         auto success = read_n_ints(reader,
